@@ -421,7 +421,11 @@ func genC03(g *Gen) {
 					a := make([][]byte, len(args))
 					copy(a, args)
 					old := string(a[1])
-					a[1] = []byte(old + sfx)
+					for ai := 1; ai < len(a); ai++ {
+						if string(a[ai]) == old { // duplicates of the key are re-keyed too
+							a[ai] = []byte(old + sfx)
+						}
+					}
 					rq.Raw = EncodeCommand(a...)
 					for k := range rq.Keys {
 						if rq.Keys[k] == old {
